@@ -1,3 +1,729 @@
-//! C05 — not yet built
-use crate::ctx::Ctx;
-pub fn run(c: &mut Ctx) { c.notes.push("C05: not implemented".into()); }
+//! C05 — Encrypt then decrypt restores every string and stream.
+//!
+//! Real code: `EncryptionState::try_from`, `Document::{encrypt, decrypt, decrypt_raw,
+//! authenticate_*}`, `encrypt_object` / `decrypt_object`, the four crypt filters, save_to / load_mem.
+//! Correspondence: the compiled Lean model (Model/Crypt.lean, run with Lean reference MD5 / SHA-256 /
+//! AES) must reproduce the real output bit for bit given the random bytes read off the real output.
+//! Oracle: structural round-trip comparison + the independent ISO reference handler of c06::refimpl.
+use super::c06::refimpl as rf;
+use crate::codec::*;
+use crate::ctx::{guard, Ctx};
+use crate::rng::Rng;
+use lopdf::encryption::crypt_filters::{Aes128CryptFilter, Aes256CryptFilter, CryptFilter, IdentityCryptFilter, Rc4CryptFilter};
+use lopdf::{Dictionary, Document, EncryptionState, EncryptionVersion, Object, ObjectId, Permissions, Stream, StringFormat};
+use serde_json::json;
+use std::collections::BTreeMap;
+use std::sync::Arc;
+
+// ------------------------------------------------------------------ configurations
+#[derive(Clone, Debug, PartialEq)]
+pub enum Ver { V1, V2(usize), V4, R5, V5 }
+
+#[derive(Clone, Debug)]
+pub struct Config {
+    pub ver: Ver,
+    pub encrypt_metadata: bool,
+    /// name -> one of b'I', b'R', b'A', b'B'
+    pub filters: Vec<(Vec<u8>, u8)>,
+    pub stmf: Vec<u8>,
+    pub strf: Vec<u8>,
+    pub file_key: Vec<u8>,
+    pub owner: String,
+    pub user: String,
+    pub perms: u64,
+}
+
+pub const PERM_BITS: [u32; 8] = [2, 3, 4, 5, 8, 9, 10, 11];
+
+pub fn filter_arc(k: u8) -> Arc<dyn CryptFilter> {
+    match k { b'I' => Arc::new(IdentityCryptFilter), b'R' => Arc::new(Rc4CryptFilter), b'A' => Arc::new(Aes128CryptFilter), _ => Arc::new(Aes256CryptFilter) }
+}
+pub fn filter_tok(m: &[u8]) -> &'static str {
+    match m { b"Identity" => "I", b"V2" => "R", b"AESV2" => "A", b"AESV3" => "B", _ => "?" }
+}
+
+impl Config {
+    pub fn is_r6ish(&self) -> bool { matches!(self.ver, Ver::R5 | Ver::V5) }
+    pub fn revision(&self) -> i64 { match self.ver { Ver::V1 => 2, Ver::V2(_) => 3, Ver::V4 => 4, Ver::R5 => 5, Ver::V5 => 6 } }
+    pub fn make_state(&self, doc: &Document) -> Result<EncryptionState, lopdf::Error> {
+        let permissions = Permissions::from_bits_truncate(self.perms);
+        let crypt_filters: BTreeMap<Vec<u8>, Arc<dyn CryptFilter>> = self.filters.iter().map(|(n, k)| (n.clone(), filter_arc(*k))).collect();
+        let v = match &self.ver {
+            Ver::V1 => EncryptionVersion::V1 { document: doc, owner_password: &self.owner, user_password: &self.user, permissions },
+            Ver::V2(l) => EncryptionVersion::V2 { document: doc, owner_password: &self.owner, user_password: &self.user, key_length: *l, permissions },
+            Ver::V4 => EncryptionVersion::V4 { document: doc, encrypt_metadata: self.encrypt_metadata, crypt_filters,
+                stream_filter: self.stmf.clone(), string_filter: self.strf.clone(), owner_password: &self.owner, user_password: &self.user, permissions },
+            #[allow(deprecated)]
+            Ver::R5 => EncryptionVersion::R5 { encrypt_metadata: self.encrypt_metadata, crypt_filters, file_encryption_key: &self.file_key,
+                stream_filter: self.stmf.clone(), string_filter: self.strf.clone(), owner_password: &self.owner, user_password: &self.user, permissions },
+            Ver::V5 => EncryptionVersion::V5 { encrypt_metadata: self.encrypt_metadata, crypt_filters, file_encryption_key: &self.file_key,
+                stream_filter: self.stmf.clone(), string_filter: self.strf.clone(), owner_password: &self.owner, user_password: &self.user, permissions },
+        };
+        EncryptionState::try_from(v)
+    }
+    /// password bytes as the handler sees them (`sanitize_password` of the real code is public)
+    pub fn show(&self, owner_b: &[u8], user_b: &[u8]) -> String {
+        let ver = match &self.ver { Ver::V1 => "v1".to_string(), Ver::V2(l) => format!("v2 {}", l), Ver::V4 => "v4".into(), Ver::R5 => "r5".into(), Ver::V5 => "v5".into() };
+        let mut fs: Vec<(Vec<u8>, u8)> = self.filters.clone(); fs.sort(); fs.dedup_by(|a, b| a.0 == b.0);
+        let mut s = format!("{} {} {}", ver, self.encrypt_metadata as u8, fs.len());
+        for (n, k) in &fs { s.push_str(&format!(" {} {}", hex_tok(n), *k as char)); }
+        s.push_str(&format!(" {} {} {} {} {} {}", hex_tok(&self.stmf), hex_tok(&self.strf), hex_tok(&self.file_key), hex_tok(owner_b), hex_tok(user_b), self.perms));
+        s
+    }
+}
+
+pub fn show_state(st: &EncryptionState) -> String {
+    let mut s = format!("{} {} {} {} {}", st.version(), st.revision(), st.key_length().map(|l| l as i64).unwrap_or(-1),
+        st.encrypt_metadata() as u8, st.crypt_filters().len());
+    for (n, f) in st.crypt_filters() { s.push_str(&format!(" {} {}", hex_tok(n), filter_tok(f.method()))); }
+    s.push_str(&format!(" {} {} {} {} {} {} {} {} {}", hex_tok(st.file_encryption_key()), hex_tok(st.default_stream_filter()),
+        hex_tok(st.default_string_filter()), hex_tok(st.owner_value()), hex_tok(st.owner_encrypted()), hex_tok(st.user_value()),
+        hex_tok(st.user_encrypted()), st.permissions().bits(), hex_tok(st.permission_encrypted())));
+    s
+}
+
+pub fn show_doc(d: &Document) -> String {
+    format!("{} {} {}", d.max_id, show_obj(&Object::Dictionary(d.trailer.clone())), show_objects(d.objects.iter()))
+}
+
+pub fn err_class(e: &lopdf::Error) -> String {
+    let s = format!("{:?}", e);
+    for k in ["InvalidKeyLength", "InvalidCipherTextLength", "Padding", "IncorrectPassword", "AlreadyEncrypted", "NotEncrypted",
+              "InvalidRevision", "UnsupportedRevision", "InvalidHashLength", "MissingFileID", "UnsupportedSecurityHandler"] {
+        if s.contains(k) { return k.to_string(); }
+    }
+    format!("other:{}", s.chars().take(60).collect::<String>().replace(' ', "_"))
+}
+
+// ------------------------------------------------------------------ generators
+const PASSWORDS_ASCII: [&str; 8] = ["", "user", "owner", "a", "correct horse battery staple", "p@ss w0rd!", "0123456789abcdef0123456789abcdef", "Zz"];
+
+pub fn gen_password(r: &mut Rng, r6: bool) -> String {
+    match r.below(10) {
+        0 => String::new(),
+        1..=4 => r.pick(&PASSWORDS_ASCII).to_string(),
+        5 => { let n = 1 + r.usize(20); (0..n).map(|_| (0x21 + r.below(0x5e) as u8) as char).collect() }
+        6 => { let n = 33 + r.usize(40); (0..n).map(|_| (b'a' + r.below(26) as u8) as char).collect() }      // longer than 32
+        7 => { // Latin-1 letters: PDFDoc-encodable, stable under SASLprep (NFKC) for these code points
+               let pool = ['é', 'ü', 'ß', 'Ø', 'ñ', 'a', 'Z', '7']; let n = 1 + r.usize(10); (0..n).map(|_| *r.pick(&pool)).collect() }
+        8 => if r6 { let pool = ['п', 'а', 'р', 'о', 'л', 'ь', '密', '码', 'x']; let n = 1 + r.usize(10); (0..n).map(|_| *r.pick(&pool)).collect() }
+             else { r.pick(&PASSWORDS_ASCII).to_string() },
+        _ => if r6 { let n = 100 + r.usize(28); (0..n).map(|_| (b'A' + r.below(26) as u8) as char).collect() }   // up to 127 bytes
+             else { let n = 100 + r.usize(60); (0..n).map(|_| (b'A' + r.below(26) as u8) as char).collect() },   // > 127 fine for R<=4 (32 used)
+    }
+}
+
+pub fn gen_config(r: &mut Rng, forced: Option<Ver>) -> Config {
+    let ver = forced.unwrap_or_else(|| match r.below(10) {
+        0 => Ver::V1,
+        1..=3 => Ver::V2(40 + 8 * r.usize(12)),
+        4..=6 => Ver::V4,
+        7 => Ver::R5,
+        _ => Ver::V5,
+    });
+    let r6 = matches!(ver, Ver::R5 | Ver::V5);
+    let names: [&[u8]; 4] = [b"StdCF", b"Other", b"X", b"Identity"];
+    let mut filters: Vec<(Vec<u8>, u8)> = vec![];
+    let (stmf, strf);
+    match ver {
+        Ver::V4 => {
+            let kinds = [b'R', b'A', b'I'];
+            let k1 = *r.pick(&kinds); let k2 = *r.pick(&kinds);
+            if k1 == k2 && r.chance(1, 2) {
+                filters.push((b"StdCF".to_vec(), k1)); stmf = b"StdCF".to_vec(); strf = b"StdCF".to_vec();
+            } else {
+                filters.push((b"StdCF".to_vec(), k1)); filters.push((b"Other".to_vec(), k2)); stmf = b"StdCF".to_vec(); strf = b"Other".to_vec();
+            }
+            if r.chance(1, 2) { filters.push((b"X".to_vec(), *r.pick(&kinds))); }
+        }
+        Ver::R5 | Ver::V5 => {
+            let kinds = [b'B', b'B', b'B', b'I'];
+            let k1 = *r.pick(&kinds); let k2 = *r.pick(&kinds);
+            filters.push((b"StdCF".to_vec(), k1)); stmf = b"StdCF".to_vec();
+            if k1 == k2 { strf = b"StdCF".to_vec(); } else { filters.push((b"Other".to_vec(), k2)); strf = b"Other".to_vec(); }
+            if r.chance(1, 2) { filters.push((b"X".to_vec(), *r.pick(&[b'B', b'I']))); }
+        }
+        _ => { stmf = vec![]; strf = vec![]; }
+    }
+    let _ = names;
+    let mut perms = 0u64;
+    match r.below(4) { 0 => perms = 3900, 1 => {}, _ => for b in PERM_BITS { if r.chance(1, 2) { perms |= 1 << b; } } }
+    let user = gen_password(r, r6);
+    let owner = if r.chance(1, 6) { user.clone() } else { gen_password(r, r6) };
+    Config { ver, encrypt_metadata: r.chance(1, 2), filters, stmf, strf, file_key: if r6 { r.bytes(32) } else { vec![] }, owner, user, perms }
+}
+
+fn gen_bytes(r: &mut Rng) -> Vec<u8> {
+    let n = match r.below(10) { 0 => 0, 1 => 15, 2 => 16, 3 => 17, 4 => 32, 5..=7 => r.usize(12), _ => r.usize(70) };
+    if r.chance(1, 3) { (0..n).map(|_| b' ' + r.below(90) as u8).collect() } else { r.bytes(n) }
+}
+fn gen_string(r: &mut Rng) -> Object {
+    Object::String(gen_bytes(r), if r.chance(1, 2) { StringFormat::Literal } else { StringFormat::Hexadecimal })
+}
+fn gen_name(r: &mut Rng) -> Vec<u8> { r.pick(&[&b"A"[..], b"Kids", b"Title", b"Contents", b"Info", b"V", b"Type", b"Name", b"K1", b"K2"]).to_vec() }
+
+pub struct GenOpts { pub stream_dict_strings: bool, pub nested_streams: bool, pub meta_dicts: bool, pub bad_length: bool }
+
+fn gen_value(r: &mut Rng, depth: usize, o: &GenOpts) -> Object {
+    match r.below(if depth >= 3 { 6 } else { 9 }) {
+        0 => Object::Integer(r.range(-1000, 1000)),
+        1 => Object::Name(gen_name(r)),
+        2 => Object::Reference((1 + r.below(30) as u32, 0)),
+        3 => if r.chance(1, 2) { Object::Null } else { Object::Boolean(r.chance(1, 2)) },
+        4 | 5 => gen_string(r),
+        6 => Object::Array((0..r.usize(4)).map(|_| gen_value(r, depth + 1, o)).collect()),
+        7 => Object::Dictionary(gen_dict(r, depth + 1, o)),
+        _ => if o.nested_streams && r.chance(1, 3) { gen_stream(r, o) } else { gen_string(r) },
+    }
+}
+fn gen_dict(r: &mut Rng, depth: usize, o: &GenOpts) -> Dictionary {
+    let mut d = Dictionary::new();
+    for _ in 0..r.usize(4) {
+        let k = gen_name(r);
+        if k == b"Type" { d.set(k, Object::Name(r.pick(&[&b"Page"[..], b"Font", b"Metadata", b"XRef", b"Catalog"]).to_vec())); }
+        else { d.set(k, gen_value(r, depth, o)); }
+    }
+    if o.meta_dicts && r.chance(1, 10) { d.set("Type", Object::Name(b"Metadata".to_vec())); d.set("S", gen_string(r)); }
+    d
+}
+fn gen_stream(r: &mut Rng, o: &GenOpts) -> Object {
+    let mut d = Dictionary::new();
+    match r.below(12) {
+        0 | 1 => { d.set("Type", Object::Name(b"Metadata".to_vec())); d.set("Subtype", Object::Name(b"XML".to_vec())); }
+        2 => { d.set("Type", Object::Name(b"XRef".to_vec())); }
+        3 => { d.set("Type", Object::Name(b"XObject".to_vec())); }
+        _ => {}
+    }
+    match r.below(12) {
+        0 => { d.set("Filter", Object::Name(b"Crypt".to_vec()));
+               let mut p = Dictionary::new(); p.set("Type", Object::Name(b"CryptFilterDecodeParms".to_vec()));
+               p.set("Name", Object::Name(r.pick(&[&b"StdCF"[..], b"Other", b"X", b"Identity", b"Nope"]).to_vec())); d.set("DecodeParms", Object::Dictionary(p)); }
+        1 => { d.set("Filter", Object::Array(vec![Object::Name(b"Crypt".to_vec())]));
+               let mut p = Dictionary::new(); if r.chance(2, 3) { p.set("Name", Object::Name(r.pick(&[&b"StdCF"[..], b"Other", b"X"]).to_vec())); } d.set("DecodeParms", Object::Dictionary(p)); }
+        2 => { d.set("Filter", Object::Name(b"Crypt".to_vec())); }                                     // no DecodeParms: no override in lopdf
+        3 => { d.set("Filter", Object::Name(b"FlateDecode".to_vec())); }
+        4 => { d.set("Filter", Object::Array(vec![Object::Name(b"Crypt".to_vec()), Object::Integer(1)])); // not all names: filters() fails
+               let mut p = Dictionary::new(); p.set("Name", Object::Name(b"X".to_vec())); d.set("DecodeParms", Object::Dictionary(p)); }
+        _ => {}
+    }
+    if o.stream_dict_strings && r.chance(1, 3) { d.set("Note", gen_string(r)); }
+    if r.chance(1, 3) { d.set("K", Object::Integer(r.range(0, 9))); }
+    let content = match r.below(8) { 0 => vec![], 1 => r.bytes(16), 2 => r.bytes(15), _ => { let n = r.usize(200); r.bytes(n) } };
+    let mut s = Stream::new(d, content);
+    if o.bad_length && r.chance(1, 4) {
+        match r.below(3) { 0 => { s.dict.remove(b"Length"); } 1 => { s.dict.set("Length", Object::Integer(r.range(0, 500))); } _ => { s.dict.set("Length", Object::Reference((99, 0))); } }
+    }
+    Object::Stream(s)
+}
+
+pub fn gen_doc(r: &mut Rng, o: &GenOpts) -> Document {
+    let mut doc = Document::with_version("1.7");
+    let n = 1 + r.usize(8);
+    let mut cur = 0u32;
+    for _ in 0..n {
+        cur += 1 + r.below(3) as u32;
+        let id: ObjectId = (cur, if r.chance(1, 8) { r.below(4) as u16 } else { 0 });
+        let obj = match r.below(10) {
+            0..=3 => gen_stream(r, o),
+            4..=6 => Object::Dictionary(gen_dict(r, 0, o)),
+            7 => gen_string(r),
+            _ => gen_value(r, 0, o),
+        };
+        doc.objects.insert(id, obj);
+    }
+    doc.max_id = cur + r.below(3) as u32;
+    // keep the would-be Encrypt id free (max_id is meant to be the largest object number)
+    let mut cat = Dictionary::new(); cat.set("Type", Object::Name(b"Catalog".to_vec()));
+    let first = *doc.objects.keys().next().unwrap();
+    doc.trailer.set("Root", Object::Reference(first));
+    let _ = cat;
+    let id0 = r.bytes(16); let id1 = r.bytes(16);
+    doc.trailer.set("ID", Object::Array(vec![Object::String(id0, StringFormat::Hexadecimal), Object::String(id1, StringFormat::Hexadecimal)]));
+    if r.chance(1, 3) { doc.trailer.set("Info", Object::Reference(first)); }
+    doc
+}
+
+// ------------------------------------------------------------------ oracle helpers
+/// equality of two objects ignoring the `Length` entry of stream dictionaries (Stream::set_content)
+pub fn same_mod_length(a: &Object, b: &Object) -> bool {
+    match (a, b) {
+        (Object::Array(x), Object::Array(y)) => x.len() == y.len() && x.iter().zip(y).all(|(p, q)| same_mod_length(p, q)),
+        (Object::Dictionary(x), Object::Dictionary(y)) => same_dict(x, y, false),
+        (Object::Stream(x), Object::Stream(y)) => x.content == y.content && same_dict(&x.dict, &y.dict, true),
+        (Object::String(x, f), Object::String(y, g)) => x == y && f == g,
+        (Object::Real(x), Object::Real(y)) => x.to_bits() == y.to_bits(),
+        _ => show_obj(a) == show_obj(b),
+    }
+}
+fn same_dict(x: &Dictionary, y: &Dictionary, skip_length: bool) -> bool {
+    let kx: Vec<&Vec<u8>> = x.iter().map(|(k, _)| k).filter(|k| !(skip_length && k.as_slice() == b"Length")).collect();
+    let ky: Vec<&Vec<u8>> = y.iter().map(|(k, _)| k).filter(|k| !(skip_length && k.as_slice() == b"Length")).collect();
+    if kx != ky { return false; }
+    kx.iter().all(|k| same_mod_length(x.get(k).unwrap(), y.get(k).unwrap()))
+}
+pub fn docs_same_mod_length(a: &Document, b: &Document) -> Result<(), String> {
+    if a.objects.len() != b.objects.len() { return Err(format!("object count {} vs {}", a.objects.len(), b.objects.len())); }
+    for ((ia, oa), (ib, ob)) in a.objects.iter().zip(b.objects.iter()) {
+        if ia != ib { return Err(format!("ids {:?} vs {:?}", ia, ib)); }
+        if !same_mod_length(oa, ob) { return Err(format!("object {:?} differs: {} vs {}", ia, show_obj(oa), show_obj(ob))); }
+    }
+    if show_obj(&Object::Dictionary(a.trailer.clone())) != show_obj(&Object::Dictionary(b.trailer.clone())) { return Err("trailer differs".into()); }
+    Ok(())
+}
+
+/// IVs in the order the real code drew them: strings / streams whose length changed (AES output is
+/// always longer than its input, RC4 / Identity keep the length).
+pub fn collect_ivs(orig: &Object, enc: &Object, out: &mut Vec<Vec<u8>>) {
+    match (orig, enc) {
+        (Object::Array(x), Object::Array(y)) => for (p, q) in x.iter().zip(y) { collect_ivs(p, q, out); },
+        (Object::Dictionary(x), Object::Dictionary(y)) => for ((_, p), (_, q)) in x.iter().zip(y.iter()) { collect_ivs(p, q, out); },
+        (Object::String(x, _), Object::String(y, _)) => if x.len() != y.len() && y.len() >= 16 { out.push(y[..16].to_vec()); },
+        (Object::Stream(x), Object::Stream(y)) => if x.content.len() != y.content.len() && y.content.len() >= 16 { out.push(y.content[..16].to_vec()); },
+        _ => {}
+    }
+}
+pub fn show_ivs(ivs: &[Vec<u8>]) -> String {
+    let mut s = ivs.len().to_string();
+    for iv in ivs { s.push(' '); s.push_str(&hex_tok(iv)); }
+    s
+}
+
+/// Algorithm 2.B table for the model: every (password, salt, udata) the code can hash for this
+/// encryption dictionary and these candidate passwords — computed by the reference.
+pub fn h2b_table(rev: i64, o: &[u8], u: &[u8], pws: &[Vec<u8>]) -> String {
+    if rev != 6 || o.len() != 48 || u.len() != 48 { return "0".into(); }
+    let mut rows = vec![];
+    let mut seen = std::collections::BTreeSet::new();
+    for pw in pws {
+        for pw in [pw.clone(), pw.iter().take(127).cloned().collect::<Vec<u8>>()] {
+            for (salt, ud) in [(&u[32..40], &[][..]), (&u[40..48], &[][..]), (&o[32..40], &u[..]), (&o[40..48], &u[..])] {
+                if !seen.insert((pw.clone(), salt.to_vec(), ud.to_vec())) { continue; }
+                let out = rf::alg2b(6, &pw, salt, ud);
+                rows.push(format!("{} {} {} {}", hex_tok(&pw), hex_tok(salt), hex_tok(ud), hex_tok(&out)));
+            }
+        }
+    }
+    format!("{} {}", rows.len(), rows.join(" ")).trim_end().to_string()
+}
+
+/// the password bytes the real code feeds its algorithms (`PasswordAlgorithm::sanitize_password` is public)
+pub fn sanitize(enc_doc: &Document, pw: &str) -> Option<Vec<u8>> {
+    let alg = lopdf::encryption::PasswordAlgorithm::try_from(enc_doc).ok()?;
+    alg.sanitize_password(pw).ok()
+}
+
+pub struct Encrypted { pub state: EncryptionState, pub doc: Document, pub ivs: Vec<Vec<u8>>, pub owner_b: Vec<u8>, pub user_b: Vec<u8> }
+
+/// real `try_from` + `encrypt`; records the `c5_mkstate` / `c5_encdoc` correspondences
+pub fn encrypt_real(c: &mut Ctx, cfg: &Config, orig: &Document) -> Result<Encrypted, String> {
+    let state = match guard(|| cfg.make_state(orig)) {
+        Ok(Ok(s)) => s,
+        Ok(Err(e)) => return Err(format!("try_from: {}", err_class(&e))),
+        Err((site, msg)) => return Err(format!("panic@{} {}", site, msg)),
+    };
+    let mut doc = orig.clone();
+    match guard(|| doc.encrypt(&state)) {
+        Ok(Ok(())) => {}
+        Ok(Err(e)) => return Err(format!("encrypt: {}", err_class(&e))),
+        Err((site, msg)) => return Err(format!("panic@{} {}", site, msg)),
+    }
+    let mut ivs = vec![];
+    for (id, o) in orig.objects.iter() { if let Some(e) = doc.objects.get(id) { collect_ivs(o, e, &mut ivs); } }
+    let owner_b = sanitize(&doc, &cfg.owner).ok_or("sanitize")?;
+    let user_b = sanitize(&doc, &cfg.user).ok_or("sanitize")?;
+    // random bytes of try_from, read off its result
+    let rev = state.revision();
+    let (u_tail, u_salts, o_salts, perms_rnd) = if rev >= 5 {
+        // (the stored Perms block is not encrypted by lopdf — finding F-C06-c — so its random tail is readable)
+        (vec![], state.user_value()[32..48].to_vec(), state.owner_value()[32..48].to_vec(), state.permission_encrypted()[12..16].to_vec())
+    } else if rev >= 3 { (state.user_value()[16..32].to_vec(), vec![], vec![], vec![]) } else { (vec![], vec![], vec![], vec![]) };
+    let tbl = h2b_table(rev, state.owner_value(), state.user_value(), &[owner_b.clone(), user_b.clone()]);
+    c.corr(format!("c5_mkstate {} {} {} {} {} {} {}", cfg.show(&owner_b, &user_b), hex_tok(&rf::file_id0(orig)),
+        hex_tok(&u_tail), hex_tok(&u_salts), hex_tok(&o_salts), hex_tok(&perms_rnd), tbl), format!("ok {}", show_state(&state)));
+    c.corr(format!("c5_encdoc {} {} {}", show_state(&state), show_doc(orig), show_ivs(&ivs)), format!("ok {}", show_doc(&doc)));
+    Ok(Encrypted { state, doc, ivs, owner_b, user_b })
+}
+
+/// real `decrypt(password)` on a clone; records the `c5_decdoc` correspondence (with the sanitised bytes)
+pub fn decrypt_real(c: &mut Ctx, e: &Encrypted, pw: &str, extra_tbl: &[Vec<u8>]) -> Result<Document, String> { decrypt_real2(c, e, pw, extra_tbl, true) }
+pub fn decrypt_real2(c: &mut Ctx, e: &Encrypted, pw: &str, extra_tbl: &[Vec<u8>], check_unchanged: bool) -> Result<Document, String> {
+    let mut d = e.doc.clone();
+    let pw_b = sanitize(&e.doc, pw).unwrap_or_default();
+    let res = guard(|| d.decrypt(pw));
+    let mut pws = vec![e.owner_b.clone(), e.user_b.clone(), pw_b.clone()]; pws.extend_from_slice(extra_tbl);
+    let tbl = h2b_table(e.state.revision(), e.state.owner_value(), e.state.user_value(), &pws);
+    let req = format!("c5_decdoc {} {} {}", show_doc(&e.doc), hex_tok(&pw_b), tbl);
+    match res {
+        Ok(Ok(())) => { c.corr(req, format!("ok {}", show_doc(&d))); Ok(d) }
+        Ok(Err(err)) => {
+            let cls = err_class(&err);
+            c.corr(req, format!("err {}", cls));
+            if check_unchanged && show_doc(&d) != show_doc(&e.doc) {
+                c.oracle_fail("failed-decrypt-mutated", "decrypt returned an error but changed the document", json!({"password": pw, "error": cls}));
+            }
+            Err(cls)
+        }
+        Err((site, msg)) => { c.oracle_fail(&format!("panic@{}", site), &msg, json!({"password": pw})); Err("panic".into()) }
+    }
+}
+
+fn pick_wrong(r: &mut Rng, cfg: &Config) -> String {
+    loop {
+        let w = match r.below(4) { 0 => String::new(), 1 => format!("{}x", cfg.user), 2 => "wrong".to_string(), _ => cfg.owner.chars().rev().collect::<String>() + "!" };
+        if w != cfg.user && w != cfg.owner { return w; }
+    }
+}
+
+/// does the ISO reference regard this document as free of the registered C06 deviations
+/// (so that its decryption must agree with lopdf's)?
+fn count_strings(o: &Object, in_stream_dict: bool, n_plain: &mut usize, n_sd: &mut usize, n_meta_dict: &mut usize) {
+    match o {
+        Object::String(_, _) => if in_stream_dict { *n_sd += 1 } else { *n_plain += 1 },
+        Object::Array(a) => for x in a { count_strings(x, in_stream_dict, n_plain, n_sd, n_meta_dict); },
+        Object::Dictionary(d) => {
+            if matches!(d.get(b"Type"), Ok(Object::Name(n)) if n == b"Metadata") { *n_meta_dict += 1; }
+            for (_, x) in d.iter() { count_strings(x, in_stream_dict, n_plain, n_sd, n_meta_dict); }
+        }
+        Object::Stream(s) => { *n_plain += 1; for (_, x) in s.dict.iter() { count_strings(x, true, n_plain, n_sd, n_meta_dict); } }
+        _ => {}
+    }
+}
+
+pub fn run(c: &mut Ctx) {
+    c.rule = "random documents (1-9 objects, sparse ids / generations, strings nested in arrays and dictionaries to depth 4, binary / empty / 15-16-17-byte \
+strings and streams, Metadata / XRef / Crypt-override streams, Metadata dictionaries, wrong or missing Length) x configurations {V1; V2 40..128 step 8; V4 with \
+{RC4,AESV2,Identity} chosen independently for strings and streams; R5; V5} x EncryptMetadata x permission subsets x passwords (empty, ASCII, Latin-1, non-Latin, \
+33-72 and 100-160 bytes, owner = user). Non-trivial = at least one string or stream was present and the configuration is not all-Identity; distinct by encdoc request.".into();
+    primitives(c);
+    let n = c.n(260, 2500);
+    for i in 0..n {
+        let Some(mut r) = c.case("doc", i) else { continue };
+        // every version / key length is hit deterministically at the start of the stream
+        let forced = match i { 0 => Some(Ver::V1), 1..=12 => Some(Ver::V2(40 + 8 * (i as usize - 1))), 13..=16 => Some(Ver::V4), 17 | 18 => Some(Ver::R5), 19..=22 => Some(Ver::V5), _ => None };
+        let cfg = gen_config(&mut r, forced);
+        let opts = GenOpts { stream_dict_strings: r.chance(1, 4), nested_streams: r.chance(1, 4), meta_dicts: r.chance(1, 4), bad_length: r.chance(1, 3) };
+        let orig = gen_doc(&mut r, &opts);
+        one_case(c, &mut r, &cfg, &orig, i % 3 == 0);
+    }
+    witnesses(c);
+}
+
+fn one_case(c: &mut Ctx, r: &mut Rng, cfg: &Config, orig: &Document, with_save: bool) {
+    let tag = match &cfg.ver { Ver::V1 => "v1".to_string(), Ver::V2(l) => format!("v2.{}", l), Ver::V4 => "v4".into(), Ver::R5 => "r5".into(), Ver::V5 => "v5".into() };
+    c.count(&format!("cfg.{}", tag));
+    if cfg.encrypt_metadata { c.count("cfg.encrypt_metadata") } else { c.count("cfg.no_encrypt_metadata") }
+    if cfg.owner == cfg.user { c.count("pw.owner_eq_user"); }
+    if cfg.user.is_empty() { c.count("pw.user_empty"); }
+    if !cfg.user.is_ascii() || !cfg.owner.is_ascii() { c.count("pw.non_ascii"); }
+    if cfg.user.len() > 32 || cfg.owner.len() > 32 { c.count("pw.longer_than_32"); }
+    if cfg.user.len() > 100 || cfg.owner.len() > 100 { c.count("pw.longer_than_100"); }
+    for (_, k) in &cfg.filters { c.count(&format!("cfg.filter.{}", *k as char)); }
+    let e = match encrypt_real(c, cfg, orig) {
+        Ok(e) => e,
+        Err(what) => { c.oracle_fail("encrypt-failed", &what, json!({"config": format!("{:?}", cfg)})); return; }
+    };
+    let (mut n_plain, mut n_sd, mut n_md) = (0, 0, 0);
+    for (_, o) in orig.objects.iter() { count_strings(o, false, &mut n_plain, &mut n_sd, &mut n_md); }
+    if n_plain > 0 { c.nontrivial(&show_doc(&e.doc)); }
+    c.count_n("ivs", e.ivs.len() as u64);
+    let case = json!({"config": format!("{:?}", cfg), "doc": show_doc(orig)});
+    c.sample(json!({"config": format!("{:?}", cfg), "objects": orig.objects.len(), "ivs": e.ivs.len()}));
+
+    // ---- structure of the encrypted document
+    if !e.doc.is_encrypted() { c.oracle_fail("not-marked-encrypted", "is_encrypted() is false after encrypt", case.clone()); }
+    if e.doc.objects.len() != orig.objects.len() + 1 { c.oracle_fail("encrypt-object-count", "encrypt did not add exactly one object", case.clone()); }
+
+    // ---- ISO reference decrypts what lopdf encrypted (user and owner password), bit for bit
+    // the reference is ISO; keep documents on which lopdf is known / expected to differ out of the reference checks:
+    // Metadata *dictionaries*, Crypt filters in V<4 documents, Crypt filter without a DecodeParms dictionary
+    // (finding F-C06-d) or in a malformed Filter array.
+    let mut crypt_any = false; let mut crypt_odd = false;
+    for (_, o) in orig.objects.iter() { scan_crypt(o, &mut crypt_any, &mut crypt_odd); }
+    let iso_clean = n_md == 0 && !(cfg.revision() < 4 && crypt_any) && !crypt_odd;
+    if iso_clean {
+        for (who, pw) in [("user", &e.user_b), ("owner", &e.owner_b)] {
+            match rf::decrypt_document(&e.doc, pw, false, true) {
+                Ok((d, _)) => {
+                    if let Err(w) = docs_same_mod_length(orig, &d) {
+                        c.oracle_fail("reference-decrypt-differs", &format!("ISO reference decrypting lopdf's output with the {} password: {}", who, w), case.clone());
+                    } else { c.count(&format!("ref_decrypt_ok.{}", who)); }
+                }
+                Err(w) => {
+                    let long = cfg.is_r6ish() && pw.len() > 127;
+                    c.oracle_fail(if long { "r6-password-over-127" } else { "reference-rejects" }, &format!("ISO reference on lopdf's output ({} password): {}", who, w), case.clone());
+                }
+            }
+        }
+    } else { c.count("skipped_reference.metadata_dict"); }
+
+    // ---- ciphertext differs from plaintext (>= 16 bytes, non-identity filter): judged with the reference's filter assignment
+    if iso_clean {
+        if let Some(Object::Dictionary(ed)) = e.doc.trailer.get(b"Encrypt").ok().and_then(|o| o.as_reference().ok()).and_then(|id| e.doc.objects.get(&id)) {
+            if let Some(d) = rf::read_enc_dict(ed) {
+                for (id, o) in orig.objects.iter() {
+                    if let Some(enc) = e.doc.objects.get(id) { check_changed(c, &d, o, enc, &case, *id); }
+                }
+            }
+        }
+    }
+
+    // ---- real decrypt: user password
+    match decrypt_real(c, &e, &cfg.user, &[]) {
+        Ok(d) => {
+            if let Err(w) = docs_same_mod_length(orig, &d) { c.oracle_fail("user-roundtrip-differs", &w, case.clone()); } else { c.count("roundtrip_ok.user"); }
+            if d.is_encrypted() || d.trailer.has(b"Encrypt") { c.oracle_fail("encrypt-entry-left", "Encrypt still present after decrypt", case.clone()); }
+        }
+        Err(cls) => c.oracle_fail(if cfg.is_r6ish() && e.user_b.len() > 127 { "r6-password-over-127" } else { "user-password-rejected" }, &cls, case.clone()),
+    }
+    // ---- real decrypt: owner password. R2–R4 with owner != user is finding F-C05-a territory: correspondence only
+    let owner_known_bad = cfg.revision() <= 4 && e.owner_b != e.user_b;
+    match decrypt_real2(c, &e, &cfg.owner, &[], !owner_known_bad) {
+        Ok(d) => {
+            if owner_known_bad { c.count("owner_r234.corr_only"); }
+            else if let Err(w) = docs_same_mod_length(orig, &d) { c.oracle_fail("owner-roundtrip-differs", &w, case.clone()); } else { c.count("roundtrip_ok.owner"); }
+        }
+        Err(cls) => if !owner_known_bad { c.oracle_fail(if cfg.is_r6ish() && e.owner_b.len() > 127 { "r6-password-over-127" } else { "owner-password-rejected" }, &cls, case.clone()) }
+                    else { c.count("owner_r234.rejected") },
+    }
+    // ---- wrong password: error, document unchanged (checked inside decrypt_real)
+    let wrong = pick_wrong(r, cfg);
+    let wrong_b = sanitize(&e.doc, &wrong).unwrap_or_default();
+    if wrong_b != e.user_b && wrong_b != e.owner_b {
+        // for R<=4 only 32 bytes count
+        let eq32 = |a: &[u8], b: &[u8]| a.iter().take(32).eq(b.iter().take(32));
+        if cfg.revision() > 4 || (!eq32(&wrong_b, &e.user_b) && !eq32(&wrong_b, &e.owner_b)) {
+            match decrypt_real(c, &e, &wrong, &[]) {
+                Ok(_) => c.oracle_fail("wrong-password-accepted", "a password that is neither the user nor the owner password was accepted", json!({"wrong": wrong, "case": case})),
+                Err(_) => c.count("wrong_rejected"),
+            }
+            if e.doc.authenticate_password(&wrong).is_ok() { c.oracle_fail("wrong-password-accepted", "authenticate_password accepted a wrong password", case.clone()); }
+        }
+    }
+    // ---- authenticate_* agree with the reference
+    if iso_clean {
+        let enc_dict = e.doc.get_encrypted().ok().and_then(rf::read_enc_dict);
+        if let Some(d) = enc_dict {
+            let id0 = rf::file_id0(orig);
+            for pw in [&cfg.user, &cfg.owner, &wrong] {
+                let b = sanitize(&e.doc, pw).unwrap_or_default();
+                let expect = rf::authenticate(&d, &id0, &b, true).is_some();
+                let got = e.doc.authenticate_password(pw).is_ok();
+                if expect != got && !(cfg.is_r6ish() && b.len() > 127) {
+                    c.oracle_fail("authenticate-differs", &format!("authenticate_password={} reference={}", got, expect), json!({"pw": pw, "case": case}));
+                }
+            }
+        }
+    }
+    // ---- through save_to / load_mem
+    if with_save {
+        let mut bytes = vec![];
+        let mut to_save = e.doc.clone();
+        if guard(|| to_save.save_to(&mut bytes)).map(|r| r.is_ok()).unwrap_or(false) {
+            match guard(|| Document::load_mem(&bytes)) {
+                Ok(Ok(mut loaded)) => {
+                    c.count("saveload.loaded");
+                    let auto = !loaded.is_encrypted();
+                    if auto { c.count("saveload.auto_decrypted"); }
+                    let ok = auto || loaded.decrypt(&cfg.user).is_ok();
+                    if !ok { c.oracle_fail("saveload-user-rejected", "user password rejected after save/load", case.clone()); }
+                    else if auto && owner_known_bad && e.owner_b.is_empty() { c.count("saveload.auto_owner_r234_known"); }
+                    else {
+                        // compare strings and stream contents object by object (ids survive; the loader may add nothing else)
+                        for (id, o) in orig.objects.iter() {
+                            if !file_representable(o, true) { c.count("saveload.skipped_unrepresentable_object"); continue; }
+                            match loaded.objects.get(id) {
+                                Some(l) if same_mod_length(o, l) => {}
+                                Some(l) => { if !has_real_or_lengthref(o) { c.oracle_fail("saveload-roundtrip-differs", &format!("object {:?}: {} vs {}", id, show_obj(o), show_obj(l)), case.clone()); } break; }
+                                None if matches!(o, Object::Stream(s) if matches!(s.dict.get(b"Type"), Ok(Object::Name(n)) if n == b"XRef")) => { c.count("saveload.xref_typed_stream_dropped_by_loader"); }
+                                None => { c.oracle_fail("saveload-object-lost", &format!("object {:?} = {} missing after save/load/decrypt", id, show_obj(o)), case.clone()); break; }
+                            }
+                        }
+                        c.count("saveload.compared");
+                    }
+                }
+                Ok(Err(_)) if owner_known_bad && e.owner_b.is_empty() => c.count("saveload.load_failed_empty_owner_r234_known"),
+                Ok(Err(err)) => c.oracle_fail("saveload-load-failed", &format!("load_mem failed on the saved encrypted document: {:?}", err), case.clone()),
+                Err((site, msg)) => c.oracle_fail(&format!("panic@{}", site), &msg, case.clone()),
+            }
+        }
+    }
+}
+
+/// objects the file syntax cannot carry (a stream nested inside another object) or that the loader treats
+/// specially (`/Type /XRef`) are outside this property's save/load comparison (C01 / C03 territory)
+fn file_representable(o: &Object, top: bool) -> bool {
+    let is_xref = |d: &Dictionary| matches!(d.get(b"Type"), Ok(Object::Name(n)) if n == b"XRef");
+    match o {
+        Object::Array(a) => a.iter().all(|x| file_representable(x, false)),
+        Object::Dictionary(d) => !(top && is_xref(d)) && d.iter().all(|(_, v)| file_representable(v, false)),
+        Object::Stream(s) => top && !is_xref(&s.dict) && s.dict.iter().all(|(_, v)| file_representable(v, false)),
+        _ => true,
+    }
+}
+fn scan_crypt(o: &Object, any: &mut bool, odd: &mut bool) {
+    match o {
+        Object::Array(a) => for x in a { scan_crypt(x, any, odd); },
+        Object::Dictionary(d) => for (_, x) in d.iter() { scan_crypt(x, any, odd); },
+        Object::Stream(s) => {
+            let (has, all_names) = match s.dict.get(b"Filter") {
+                Ok(Object::Name(n)) => (n == b"Crypt", true),
+                Ok(Object::Array(a)) => (a.iter().any(|x| matches!(x, Object::Name(n) if n == b"Crypt")), a.iter().all(|x| matches!(x, Object::Name(_)))),
+                _ => (false, true),
+            };
+            if has { *any = true; if !all_names || !matches!(s.dict.get(b"DecodeParms"), Ok(Object::Dictionary(_))) { *odd = true; } }
+        }
+        _ => {}
+    }
+}
+fn has_real_or_lengthref(o: &Object) -> bool {
+    match o {
+        Object::Real(_) => true,
+        Object::Array(a) => a.iter().any(has_real_or_lengthref),
+        Object::Dictionary(d) => d.iter().any(|(_, v)| has_real_or_lengthref(v)),
+        Object::Stream(s) => !matches!(s.dict.get(b"Length"), Ok(Object::Integer(n)) if *n as usize == s.content.len()) || s.dict.iter().any(|(_, v)| has_real_or_lengthref(v)),
+        _ => false,
+    }
+}
+
+fn check_changed(c: &mut Ctx, d: &rf::EncDict, o: &Object, enc: &Object, case: &serde_json::Value, id: ObjectId) {
+    match (o, enc) {
+        (Object::Array(x), Object::Array(y)) => for (p, q) in x.iter().zip(y) { check_changed(c, d, p, q, case, id); },
+        (Object::Dictionary(x), Object::Dictionary(y)) => for ((_, p), (_, q)) in x.iter().zip(y.iter()) { check_changed(c, d, p, q, case, id); },
+        (Object::String(x, _), Object::String(y, _)) => {
+            if rf::method_of(d, d.strf.as_deref()) != rf::Method::None && x.len() >= 16 && x == y {
+                c.oracle_fail("ciphertext-equals-plaintext", "string of >= 16 bytes unchanged by a non-identity filter", json!({"id": format!("{:?}", id), "case": case}));
+            } else if x.len() >= 16 { c.count("changed_checked.string"); }
+        }
+        (Object::Stream(x), Object::Stream(y)) => {
+            let exempt = matches!(x.dict.get(b"Type"), Ok(Object::Name(n)) if n == b"XRef" || (n == b"Metadata" && !d.encrypt_metadata));
+            if !exempt && x.content.len() >= 16 && x.content == y.content {
+                // which method applies is the reference's decision
+                let mut probe = Object::Stream(x.clone());
+                let mut dir = rf::Dir::Enc(&mut || vec![0u8; 16]);
+                let _ = rf::crypt_object(d, &[7u8; 32][..d.key_bytes()], id, &mut probe, &mut dir, false);
+                if let Object::Stream(p) = probe { if p.content != x.content {
+                    c.oracle_fail("ciphertext-equals-plaintext", "stream of >= 16 bytes unchanged by a non-identity filter", json!({"id": format!("{:?}", id), "case": case}));
+                } }
+            } else if x.content.len() >= 16 { c.count("changed_checked.stream"); }
+        }
+        _ => {}
+    }
+}
+
+// ------------------------------------------------------------------ primitives: RC4 / per-object key / filters against the model
+fn primitives(c: &mut Ctx) {
+    let n = c.n(150, 1500);
+    for i in 0..n {
+        let Some(mut r) = c.case("prim", i) else { continue };
+        // RC4 through the public Rc4CryptFilter
+        let klen = match r.below(6) { 0 => 1, 1 => 5, 2 => 16, 3 => 32, 4 => 256, _ => 1 + r.usize(40) };
+        let key = r.bytes(klen);
+        let dl = r.usize(300); let data = r.bytes(dl);
+        let out = Rc4CryptFilter.encrypt(&key, &data).unwrap();
+        c.corr(format!("c5_rc4 {} {}", hex_tok(&key), hex_tok(&data)), format!("ok {}", hex_tok(&out)));
+        if out != rf::rc4(&key, &data) { c.oracle_fail("rc4-differs", "RC4 differs from the reference", json!({"key": hex(&key), "data": hex(&data)})); }
+        if Rc4CryptFilter.decrypt(&key, &out).unwrap() != data { c.oracle_fail("rc4-not-involutive", "", json!({"key": hex(&key)})); }
+        // per-object keys
+        let fk_len = *r.pick(&[5usize, 7, 10, 11, 12, 16, 32]);
+        let fk = r.bytes(fk_len);
+        let id: ObjectId = (match r.below(4) { 0 => r.below(256) as u32, 1 => 0x00ff_ffff, 2 => 0x0100_0000 + r.below(1000) as u32, _ => r.next() as u32 }, if r.chance(1, 2) { 0 } else { r.next() as u16 });
+        for (tok, f) in [("I", filter_arc(b'I')), ("R", filter_arc(b'R')), ("A", filter_arc(b'A')), ("B", filter_arc(b'B'))] {
+            let k = f.compute_key(&fk, id).unwrap();
+            c.corr(format!("c5_key {} {} {} {}", tok, hex_tok(&fk), id.0, id.1), format!("ok {}", hex_tok(&k)));
+            let expect = match tok { "I" | "B" => fk.clone(), "R" => rf::object_key(&fk, id, false, false), _ => rf::object_key(&fk, id, true, false) };
+            if k != expect { c.oracle_fail("object-key-differs", "per-object key differs from Algorithm 1 / 1.A", json!({"filter": tok, "key": hex(&fk), "id": format!("{:?}", id)})); }
+            // encrypt / decrypt with that key
+            let pl = match r.below(6) { 0 => 0, 1 => 15, 2 => 16, 3 => 17, _ => r.usize(100) };
+            let pt = r.bytes(pl);
+            match f.encrypt(&k, &pt) {
+                Ok(ct) => {
+                    let iv = if ct.len() != pt.len() { ct[..16].to_vec() } else { vec![] };
+                    c.corr(format!("c5_filt enc {} {} {} {}", tok, hex_tok(&k), hex_tok(&iv), hex_tok(&pt)), format!("ok {}", hex_tok(&ct)));
+                    let back = f.decrypt(&k, &ct);
+                    c.corr(format!("c5_filt dec {} {} - {}", tok, hex_tok(&k), hex_tok(&ct)), match &back { Ok(b) => format!("ok {}", hex_tok(b)), Err(e) => format!("err {}", err_class(&lopdf::Error::from(clone_err(e)))) });
+                    if back.ok().as_deref() != Some(&pt[..]) { c.oracle_fail("filter-roundtrip", "decrypt(encrypt(x)) != x", json!({"filter": tok})); }
+                    if (tok == "A" || tok == "B") && ct.len() != 16 + (pt.len() / 16 + 1) * 16 { c.oracle_fail("aes-length", "AES output length is not 16 + padded length", json!({"len": ct.len()})); }
+                    c.count(&format!("prim.filter_ok.{}", tok));
+                }
+                Err(e) => {
+                    c.corr(format!("c5_filt enc {} {} {} {}", tok, hex_tok(&k), hex_tok(&[0u8; 16]), hex_tok(&pt)), format!("err {}", err_class(&lopdf::Error::from(e))));
+                    c.count(&format!("prim.filter_err.{}", tok));
+                }
+            }
+            // malformed ciphertext
+            let gl = r.usize(70); let garbage = r.bytes(gl);
+            let back = f.decrypt(&k, &garbage);
+            c.corr(format!("c5_filt dec {} {} - {}", tok, hex_tok(&k), hex_tok(&garbage)), match &back { Ok(b) => format!("ok {}", hex_tok(b)), Err(e) => format!("err {}", err_class(&lopdf::Error::from(clone_err(e)))) });
+        }
+    }
+}
+fn clone_err(e: &lopdf::encryption::DecryptionError) -> lopdf::encryption::DecryptionError {
+    use lopdf::encryption::DecryptionError as D;
+    match e { D::InvalidKeyLength => D::InvalidKeyLength, D::InvalidCipherTextLength => D::InvalidCipherTextLength, D::Padding => D::Padding, D::IncorrectPassword => D::IncorrectPassword, _ => D::NotDecryptable }
+}
+
+// ------------------------------------------------------------------ canonical witnesses of the known findings
+fn simple_doc() -> Document {
+    let mut doc = Document::with_version("1.7");
+    doc.objects.insert((1, 0), Object::String(b"The quick brown fox jumps over the lazy dog".to_vec(), StringFormat::Literal));
+    doc.objects.insert((2, 0), Object::Stream(Stream::new(Dictionary::new(), b"stream content 0123456789 0123456789".to_vec())));
+    doc.max_id = 2;
+    doc.trailer.set("Root", Object::Reference((1, 0)));
+    doc.trailer.set("ID", Object::Array(vec![Object::String(vec![7u8; 16], StringFormat::Hexadecimal), Object::String(vec![9u8; 16], StringFormat::Hexadecimal)]));
+    doc
+}
+fn base_cfg(ver: Ver) -> Config {
+    let r6 = matches!(ver, Ver::R5 | Ver::V5);
+    let k = if r6 { b'B' } else { b'A' };
+    let has_cf = matches!(ver, Ver::V4 | Ver::R5 | Ver::V5);
+    Config { ver, encrypt_metadata: true, filters: if has_cf { vec![(b"StdCF".to_vec(), k)] } else { vec![] },
+        stmf: if has_cf { b"StdCF".to_vec() } else { vec![] }, strf: if has_cf { b"StdCF".to_vec() } else { vec![] },
+        file_key: if r6 { (0..32).collect() } else { vec![] }, owner: "owner".into(), user: "user".into(), perms: 3900 }
+}
+
+fn witnesses(c: &mut Ctx) {
+    // F-C05-a: R2–R4, owner password: Ok but garbage
+    if let Some(_r) = c.case("witness", 0) {
+        let mut repro = 0; let mut detail = vec![];
+        for ver in [Ver::V1, Ver::V2(40), Ver::V2(128), Ver::V4] {
+            let cfg = base_cfg(ver.clone()); let orig = simple_doc();
+            if let Ok(e) = encrypt_real(c, &cfg, &orig) {
+                let auth = e.doc.authenticate_owner_password("owner").is_ok();
+                match decrypt_real2(c, &e, "owner", &[], false) {
+                    Ok(d) => { if auth && docs_same_mod_length(&orig, &d).is_err() { repro += 1; detail.push(format!("{:?}: authenticated, Ok, content garbage", ver)); } else { detail.push(format!("{:?}: restored", ver)); } }
+                    Err(cls) => { if auth && cls == "Padding" { repro += 1; } detail.push(format!("{:?}: authenticated={} then Err({}) (AES padding of garbage)", ver, auth, cls)) }
+                }
+                // and the ISO reference opens the same document with the owner password
+                if !matches!(rf::decrypt_document(&e.doc, b"owner", false, false), Ok((ref d, true)) if docs_same_mod_length(&orig, d).is_ok()) { detail.push(format!("{:?}: reference failed too", ver)); }
+            }
+        }
+        c.witness("F-C05-a", repro == 4, &format!("decrypt(\"owner\") on documents encrypted with owner=\"owner\", user=\"user\": {}", detail.join("; ")));
+    }
+    // F-C05-b: R<=4 password sanitising drops every non-PDFDoc character
+    if let Some(_r) = c.case("witness", 1) {
+        let mut cfg = base_cfg(Ver::V2(128)); cfg.user = "пароль".into(); cfg.owner = "владелец".into();
+        let orig = simple_doc();
+        let mut what = String::new(); let mut repro = false;
+        if let Ok(e) = encrypt_real(c, &cfg, &orig) {
+            let accepted_other = decrypt_real(c, &e, "密码", &[]).is_ok();
+            let accepted_empty = e.doc.authenticate_user_password("").is_ok();
+            repro = accepted_other && accepted_empty && e.user_b.is_empty();
+            what = format!("user password \"пароль\" sanitised to {} bytes; decrypt(\"密码\") ok={}, authenticate_user_password(\"\") ok={}", e.user_b.len(), accepted_other, accepted_empty);
+        }
+        c.witness("F-C05-b", repro, &what);
+    }
+    // F-C05-c: R5/R6 password longer than 127 bytes: hashed in full when creating, truncated when checking
+    if let Some(_r) = c.case("witness", 2) {
+        let mut detail = vec![]; let mut repro = 0;
+        for ver in [Ver::R5, Ver::V5] {
+            let mut cfg = base_cfg(ver.clone()); cfg.user = "u".repeat(128); cfg.owner = "o".repeat(200);
+            let orig = simple_doc();
+            if let Ok(e) = encrypt_real(c, &cfg, &orig) {
+                let user = decrypt_real(c, &e, &cfg.user, &[]); let owner = decrypt_real(c, &e, &cfg.owner, &[]);
+                if user.is_err() && owner.is_err() { repro += 1; }
+                detail.push(format!("{:?}: user {:?} owner {:?}", ver, user.err(), owner.err()));
+            }
+        }
+        c.witness("F-C05-c", repro == 2, &format!("128-byte user / 200-byte owner password rejected after encrypt: {}", detail.join("; ")));
+    }
+}
